@@ -14,14 +14,17 @@ TNext ==
   /\ l <= Len(Steps(tid)) /\ l' = l + 1 /\ tid' = tid
   /\ LET e == Steps(tid)[l]
          qm == Traces[tid].qmax
+         \* episodes in which the harness does not serialise the queue operations itself: the order of the logged puts and gets
+         \* is then not the order inside the queue, which is compared as a bag
+         racy == Traces[tid].racy
      IN
      /\ CASE e.ev = "put" ->
               /\ queue' = IF e.ok THEN Append(queue, M(e)) ELSE queue
-              /\ ((e.ok /\ Len(queue) > qm) \/ (~e.ok /\ Len(queue) <= qm)) => PrintT(<<"DRIFT", tid, l, <<"put">>, {"queue-limit"}>>)
+              /\ (~racy /\ ((e.ok /\ Len(queue) > qm) \/ (~e.ok /\ Len(queue) <= qm))) => PrintT(<<"DRIFT", tid, l, <<"put">>, {"queue-limit"}>>)
               /\ UNCHANGED <<applied, cbcount, ret>>
           [] e.ev = "get" ->
-              /\ queue' = IF queue # <<>> THEN Tail(queue) ELSE queue
-              /\ (queue = <<>> \/ Head(queue) # M(e)) => PrintT(<<"DRIFT", tid, l, <<"get">>, {"fifo"}>>)
+              /\ queue' = IF racy THEN SelectSeq(queue, LAMBDA m : m # M(e)) ELSE IF queue # <<>> THEN Tail(queue) ELSE queue
+              /\ (~racy /\ (queue = <<>> \/ Head(queue) # M(e))) => PrintT(<<"DRIFT", tid, l, <<"get">>, {"fifo"}>>)
               /\ UNCHANGED <<applied, cbcount, ret>>
           [] e.ev = "apply" -> applied' = Append(applied, M(e)) /\ UNCHANGED <<queue, cbcount, ret>>
           [] e.ev = "cb" -> cbcount' = [cbcount EXCEPT ![M(e)] = @ + 1] /\ UNCHANGED <<queue, applied, ret>>
@@ -39,5 +42,9 @@ TNext ==
            \* at the end of an episode (all threads joined, queue drained): every call was applied once or reported failed
            /\ (\E m \in Cmd : m[2] <= Traces[tid].calls /\ m \notin SeqToSet(applied') /\ ret'[m] \notin {<<"raise", "QUEUE_FULL">>, <<"raise", "Timeout">>, <<"raise", "LEADER_CHANGED">>, <<"raise", "MISSING_LEADER">>})
                  => PrintT(<<"VIOL", tid, l, <<"end">>, {"C19.AppliedOrFailed"}>>)
+           \* ... and no call that was accepted into the queue of this (healthy, single-node) leader got lost on the way
+           /\ (\E m \in Cmd : m[2] <= Traces[tid].calls /\ m \notin SeqToSet(applied')
+                               /\ \E i \in 1..Len(Steps(tid)) : Steps(tid)[i].ev = "put" /\ Steps(tid)[i].ok /\ M(Steps(tid)[i]) = m)
+                 => PrintT(<<"VIOL", tid, l, <<"end">>, {"C19.AcceptedNotLost"}>>)
 TSpec == TInit /\ [][TNext]_tvars
 =============================================================================
